@@ -197,6 +197,10 @@ class HumanMessageSerializer:
         if serializer and beautify and not isinstance(var_val, VerbatimHumanVal):
             try:
                 pretty_data = serializer.deserialize(block, var_val, pod=True)
+                if pretty_data is not se.UNSERIALIZABLE and serializer.serialize(block, pretty_data) != var_val:
+                    # Not in the serializer's canonical form, the pretty form wouldn't pack
+                    # back to the same value. Only show the original.
+                    pretty_data = se.UNSERIALIZABLE
                 if pretty_data is not se.UNSERIALIZABLE:
                     string += f"  {var_name} =| {cls._multi_line_pformat(pretty_data)}"
                     if serializer.AS_HEX and isinstance(var_val, int):
